@@ -10,6 +10,7 @@ import (
 	"fmt"
 	"go/types"
 	"hash/fnv"
+	"sort"
 	"strings"
 
 	"golang.org/x/tools/go/ssa"
@@ -202,4 +203,99 @@ func (fc *FnCtx) spawn(st *State, x *ssa.Go) {
 		fc.oblige(st, "spawn.requires", ct.Key+"."+cl.Label, site, t, cl.Src)
 	}
 	fc.notes.Assumed["goroutine "+ct.Key+" started at "+site+": its body is verified separately against its contract, interleaving is not modelled"] = true
+}
+
+// ---- names of parameters and locals (rename resilience) --------------------------------
+//
+// Contracts name parameters and local variables. So that a pure rename in the code does not
+// make a contract unbindable (a false alarm), the ledger records, per function under
+// contract, the parameter names by position and the local variables by declaration order
+// within their type; when a recorded name no longer exists and the current function has a
+// variable in the same position under another name, the recorded name is read as an alias
+// of it (the run lists every alias it used).
+
+type LocalName struct {
+	Name string `json:"n"`
+	Type string `json:"t"`
+}
+
+type FnNames struct {
+	Params []string    `json:"params"`
+	Locals []LocalName `json:"locals"`
+}
+
+func namesOf(fn *ssa.Function) FnNames {
+	var out FnNames
+	for _, p := range fn.Params {
+		out.Params = append(out.Params, p.Name())
+	}
+	seen := map[types.Object]bool{}
+	var objs []*types.Var
+	add := func(o types.Object) {
+		v, ok := o.(*types.Var)
+		if !ok || v == nil || seen[v] || v.Pkg() == nil || v.Parent() == v.Pkg().Scope() || v.IsField() {
+			return
+		}
+		seen[v] = true
+		objs = append(objs, v)
+	}
+	for _, b := range fn.Blocks {
+		for _, in := range b.Instrs {
+			if d, ok := in.(*ssa.DebugRef); ok {
+				add(d.Object())
+			}
+		}
+	}
+	sort.SliceStable(objs, func(i, j int) bool { return objs[i].Pos() < objs[j].Pos() })
+	isParam := map[string]bool{}
+	for _, p := range out.Params {
+		isParam[p] = true
+	}
+	for _, v := range objs {
+		if isParam[v.Name()] {
+			continue
+		}
+		out.Locals = append(out.Locals, LocalName{v.Name(), v.Type().String()})
+	}
+	return out
+}
+
+// aliasesFor maps names recorded in the ledger that no longer exist in fn to the names now
+// standing in the same position.
+func aliasesFor(rec FnNames, cur FnNames) map[string]string {
+	al := map[string]string{}
+	have := map[string]bool{}
+	for _, p := range cur.Params {
+		have[p] = true
+	}
+	for _, l := range cur.Locals {
+		have[l.Name] = true
+	}
+	if len(rec.Params) == len(cur.Params) {
+		for i := range rec.Params {
+			if rec.Params[i] != cur.Params[i] && !have[rec.Params[i]] {
+				al[rec.Params[i]] = cur.Params[i]
+			}
+		}
+	}
+	byType := func(ls []LocalName) map[string][]string {
+		m := map[string][]string{}
+		for _, l := range ls {
+			m[l.Type] = append(m[l.Type], l.Name)
+		}
+		return m
+	}
+	r, c := byType(rec.Locals), byType(cur.Locals)
+	for t, rn := range r {
+		cn := c[t]
+		if len(cn) != len(rn) {
+			continue
+		}
+		for i := range rn {
+			if rn[i] != cn[i] && !have[rn[i]] {
+				al[rn[i]] = cn[i]
+			}
+		}
+	}
+	return al
 }
